@@ -213,7 +213,25 @@ def handleChk : List String → Option String
       some (toString (Sif.Spec.C10.confinedOK (← parseBool p) (← parseBool e) (← parseBool u)))
   | _ => none
 
+/-- `inv <h> <lp 4> <pm 9>`: the invariants assumed by the theorems, on the implementation's state -/
+def handleInv : List String → Option String
+  | h :: a :: mx :: cur :: el :: rest => do
+      let lp ← parseLp [a, mx, cur, el]
+      let pm ← parsePm rest
+      let h ← parseInt h
+      some (if Sif.Spec.C10.LpInv lp && Sif.Spec.C10.PmtpInv pm h then "holds" else "violated")
+  | _ => none
+
+/-- `powenv <start> <end> <epochLen> <gov> <blockRate>`: the assumption on math.Pow -/
+def handlePowEnv : List String → Option String
+  | [st, en, el, gov, b] => do
+      let pm : Pmtp := ⟨← parseInt st, ← parseInt en, ← parseInt el, ← parseDec gov, 0, 0, Dec.zero, Dec.zero, Dec.zero⟩
+      some (if Sif.Spec.C10.PowAccurate pm (← parseDec b) then "holds" else "violated")
+  | _ => none
+
 def handlePolicy : List String → Option String
+  | "inv" :: rest => handleInv rest
+  | "powenv" :: rest => handlePowEnv rest
   | "bb" :: rest => handleBB rest
   | "eb" :: rest => handleEB rest
   | "adm" :: rest => handleAdm rest
